@@ -15,6 +15,7 @@
 package main
 
 import (
+	"bytes"
 	"fmt"
 	"regexp"
 	"strings"
@@ -301,6 +302,46 @@ func (e *env) v1Witness(cs consensus.State, orig types.Block, kinds []string) {
 						}
 					}
 					e.b.Count("partial_signature_replays_tried", 1)
+					return true
+				})
+			}
+		}
+		// a partial signature binds the CONTENT of the fields it lists, not their kind: the last miner fee - listed, hence
+		// signed - is removed, its value goes to a stranger in an output beyond the covered indices, and the bytes the
+		// fee contributed to the signed hash are supplied by a new arbitrary-data entry listed in its place
+		if len(t.MinerFees) > 0 && len(t.StorageProofs) == 0 {
+			allPartial := true
+			for _, sg := range t.Signatures {
+				cf := sg.CoveredFields
+				allPartial = allPartial && !cf.WholeTransaction && len(cf.Signatures) == 0 && len(cf.MinerFees) == len(t.MinerFees) && len(cf.ArbitraryData) == len(t.ArbitraryData)
+			}
+			if allPartial {
+				variant("signed-miner-fee-relabelled-as-arbitrary-data-and-paid-to-a-stranger", true, func(tt *types.Transaction) bool {
+					last := len(tt.MinerFees) - 1
+					fee := tt.MinerFees[last]
+					var buf bytes.Buffer
+					enc := types.NewEncoder(&buf)
+					types.V1Currency(fee).EncodeTo(enc)
+					enc.Flush()
+					a := uint64(len(tt.ArbitraryData))
+					tt.MinerFees = tt.MinerFees[:last]
+					tt.ArbitraryData = append(append([][]byte(nil), tt.ArbitraryData...), buf.Bytes()[8:])
+					tt.SiacoinOutputs = append(append([]types.SiacoinOutput(nil), tt.SiacoinOutputs...), types.SiacoinOutput{Value: fee, Address: types.StandardUnlockHash(foreignKey.PublicKey())})
+					for k := range tt.Signatures {
+						cf := &tt.Signatures[k].CoveredFields
+						var fees []uint64
+						for _, x := range cf.MinerFees {
+							if x != uint64(last) {
+								fees = append(fees, x)
+							}
+						}
+						if len(fees) != last || (len(cf.MinerFees) > 0 && cf.MinerFees[len(cf.MinerFees)-1] != uint64(last)) {
+							return false // the removed fee was not hashed last among the fees
+						}
+						cf.MinerFees = fees
+						cf.ArbitraryData = append([]uint64{a}, cf.ArbitraryData...)
+					}
+					e.b.Count("partial_signature_field_kind_relabellings_tried", 1)
 					return true
 				})
 			}
